@@ -203,7 +203,120 @@ def one_config(run, cls, kw, rng, idx):
   run.add("%03d_finite" % idx, ir.build_smt(b, dom + [fin]), meta=dict(meta, clause="finite"), timeout=600)
 
 
+# ---- data-dependent scales: the scale is a constant for the gradient (stop_gradient) --------------------------------------------
+AUTO = [("quantized_linear", dict(bits=4, integer=1, symmetric=False, alpha="auto"), (2, 1)),
+        ("quantized_linear", dict(bits=4, integer=0, alpha="auto"), (2, 1)),
+        ("quantized_bits", dict(bits=4, integer=1, alpha="auto"), (2, 1))]
+
+
+def jac_row(q, i, shape):
+  import tensorflow as tf
+
+  def f(x):
+    with tf.GradientTape() as t:
+      t.watch(x)
+      y = tf.reshape(q(x), [-1])[i]
+    return t.gradient(y, x)
+  return f
+
+
+def expected_jacobian(q, cls, kw, x):
+  """harness-side oracle on a concrete tensor: d out_i / d x_j = [i == j] inside the clip range of quantizers that clip before
+  rounding (quantized_linear), [i == j] everywhere for the straight-through quantized_bits; None marks entries too close to a kink"""
+  import tensorflow as tf
+  n = x.size
+  xf = x.reshape(-1).astype(np.float64)
+  exp = np.zeros((n, n))
+  skip = np.zeros((n, n), dtype=bool)
+  if cls == "quantized_bits":
+    return np.eye(n), skip
+  q(tf.constant(x))
+  s = np.broadcast_to(np.asarray(q.quantization_scale, dtype=np.float64), x.shape).reshape(-1)
+  lo, hi = [float(np.asarray(v)) for v in q.get_clip_bounds()]
+  for i in range(n):
+    u = xf[i] / s[i]
+    if min(abs(u - lo), abs(u - hi)) < 1e-3 * max(1.0, abs(hi)):
+      skip[i, :] = True
+    elif lo < u < hi:
+      exp[i, i] = 1.0
+  return exp, skip
+
+
+def real_jacobian(q, x):
+  import tensorflow as tf
+  n = x.size
+  J = np.zeros((n, n))
+  for i in range(n):
+    g = jac_row(q, i, x.shape)(tf.constant(x))
+    J[i] = np.zeros(n) if g is None else np.asarray(g).reshape(-1)
+  return J
+
+
+def auto_part(run, rng):
+  import tensorflow as tf
+  for ci, (cls, kw, shape) in enumerate(AUTO):
+    cfg = qz.cfg_str(cls, kw) + " on %s" % (shape,)
+    q = qz.make(cls, kw)
+    n = int(np.prod(shape))
+    # (1) structure of the gradient graph: d out_i / d x_j for i != j is the constant zero term - the scale does not carry a gradient
+    structural = True
+    try:
+      for i in range(n):
+        b = ir.Builder()
+        it = tfg.Interp(b)
+        cf = tfg.trace(jac_row(q, i, shape), tf.TensorSpec(shape, tf.float32))
+        xin = tfg.sym_input(b, "x", shape)
+        outs, _ = it.run(cf, [xin])
+        row = it.lift(outs[0]).reshape(-1)
+        xs = list(xin.reshape(-1))
+        dom = []
+        for xn in xs:
+          dom += [qz.finite_normal(xn), qz.abs_lt(xn, 2.0 ** 20), ir.L("(fp.geq (fp.abs {0}) %s)" % ir.fp_lit(2.0 ** -20), xn)]
+        b.close_stubs()
+        for j in range(n):
+          if j == i:
+            continue
+          if row[j].op == "fconst" and (row[j].attr & 0x7FFFFFFF) == 0:
+            ob = harness.solve.Obligation("%s_J%02d_d%d_d%d" % (PROP, ci, i, j), "(structural) the Jacobian entry is the constant 0",
+                                          meta=dict(cls=cls, kw=kw, clause="auto_scale_offdiagonal", entry=[i, j], by="hash-consing"))
+            ob.result = harness.solve.Result("unsat", {}, 0.0, "hash-consing")
+            run.obls.append(ob)
+          else:
+            run.add("J%02d_d%d_d%d" % (ci, i, j), ir.build_smt(b, dom + [ir.L("(not (fp.isZero {0}))", row[j])], get_values=[x_.attr + "_b" for x_ in xs]),
+                    meta=dict(cls=cls, kw=kw, clause="auto_scale_offdiagonal", entry=[i, j], shape=list(shape)), timeout=900)
+        run.add_twin("J%02d_row%d" % (ci, i), ir.build_smt(b, dom + [ir.L("(= {0} {0})", row[i])]), meta=dict(cls=cls, kw=kw))
+    except tfg.Unsupported as e:
+      structural = False
+      run.aux.setdefault("auto_scale_untranslated", []).append("%s: %s" % (cfg, e))
+    # (2) concrete Jacobians of the real code on probe tensors against the oracle (they confirm a structural failure and check the
+    #     diagonal, whose exact value (1/s)*s is only 1 up to rounding)
+    bad = None
+    for t in range(8):
+      x = (rng.randn(*shape) * (0.3 + t)).astype(np.float32)
+      J = real_jacobian(q, x)
+      E, skip = expected_jacobian(q, cls, kw, x)
+      run.concrete_checks += 1
+      d = np.abs(J - E)
+      d[skip] = 0.0
+      if np.any(d > 1e-4) or not np.all(np.isfinite(J)):
+        bad = dict(x=x.tolist(), jacobian=J.tolist(), expected=E.tolist())
+        break
+    if bad is not None:
+      run.violation(dict(clause="auto_scale_gradient", cls=cls), dict(cfg=cfg, **bad), dict(clause="auto_scale_gradient", cls=cls, kw=kw, shape=list(shape), x=bad["x"]))
+    elif not structural:
+      run.inconclusive_("%s: the gradient graph could not be translated and no probe tensor separates the real Jacobian from the oracle" % cfg)
+    run.configs.append(cfg)
+
+
 def replay_concrete(rep):
+  if rep.get("clause") == "auto_scale_gradient":
+    q = qz.make(rep["cls"], rep["kw"])
+    x = np.asarray(rep["x"], dtype=np.float32)
+    J = real_jacobian(q, x)
+    E, skip = expected_jacobian(q, rep["cls"], rep["kw"], x)
+    d = np.abs(J - E)
+    d[skip] = 0.0
+    return bool(np.any(d > 1e-4)), dict(jacobian=J.tolist(), expected=E.tolist())
   import tensorflow as tf
   cls, kw = rep["cls"], rep["kw"]
   q = qz.make(cls, kw)
@@ -235,6 +348,16 @@ def triage(run):
     if r.verdict == "unsat":
       continue
     if r.verdict == "sat":
+      if o.meta.get("clause") == "auto_scale_offdiagonal":
+        names = sorted(k for k in r.model if k.startswith("x_") and k.endswith("_b"))
+        xs = np.array([ir.bits_f32(r.model[k]) for k in names], dtype=np.float32).reshape(o.meta["shape"])
+        rep = dict(clause="auto_scale_gradient", cls=o.meta["cls"], kw=o.meta["kw"], shape=o.meta["shape"], x=xs.tolist())
+        ok, detail = replay_concrete(rep)
+        if ok:
+          run.violation(dict(clause="auto_scale_gradient", cls=o.meta["cls"]), dict(cfg=qz.cfg_str(o.meta["cls"], o.meta["kw"]), x=xs.tolist(), **detail), rep)
+        else:
+          run.inconclusive_("counterexample of %s does not reproduce on the real code: %s" % (o.oid, str(detail)[:200]))
+        continue
       rep = dict(cls=o.meta["cls"], kw=o.meta["kw"], clause=o.meta["clause"], x_bits=r.model.get("x_b", r.model.get("x_0_b")))
       ok, detail = replay_concrete(rep)
       if ok:
@@ -253,6 +376,9 @@ def run(tier, seed):
                  "(_round_through, _sign_through, _floor_through, stop_gradient residuals, use_ste/non-STE mixing expressions)"]
   r.bounds = ["%d configurations; the input is one symbolic float32 (all finite non-subnormal values except the listed kinks of the surrogate)" % len(cfgs),
               "data-dependent scales ('auto', 'auto_po2'): one-element tensor, 2^-40 <= |x| < 2^40",
+              "data-dependent scales on two-element tensors (quantized_linear / quantized_bits, alpha='auto'): every off-diagonal entry of the "
+              "Jacobian is zero for all inputs with 2^-20 <= |x_k| < 2^20 (QF_BVFP query on the traced gradient graph: the scale carries no gradient); the "
+              "diagonal is compared with the oracle on 8 probe tensors per configuration (auxiliary, concrete: (1/s)*s is 1 only up to rounding)",
               "quantized_tanh/quantized_sigmoid/ulaw/hswish/bernoulli and the sigmoid-normalised ReLU are not in the property's catalogue and are not covered"]
   r.assumptions = ["gradient graphs are produced by TensorFlow autodiff from the real forward code and translated op by op "
                    "(ReluGrad, LeakyReluGrad, TanhGrad, Select, Minimum/Maximum gradients...)",
@@ -264,6 +390,12 @@ def run(tier, seed):
       one_config(r, cls, kw, rng, i)
     except tfg.Unsupported as e:
       r.inconclusive_("cannot translate gradient graph of %s: %s" % (qz.cfg_str(cls, kw), e))
+  try:
+    auto_part(r, rng)
+  except Exception as e:  # pylint: disable=broad-except
+    import traceback
+    traceback.print_exc()
+    r.inconclusive_("harness error in the auto-scale Jacobian part: %r" % (e,))
   r.discharge()
   triage(r)
   return r.finish("For every configuration the function x -> d q(x)/dx is traced through tf.GradientTape (so the graph comes from TensorFlow's "
